@@ -106,6 +106,26 @@ def check(ctx):
                    message='the registry mixes %s: a bare class object cannot be called like '
                            'its sibling instances (TypeError before anything is listed)'
                            % sorted(kinds))
+    registry = [n for n in b.nodes('lookup') if 'dict' in n.data and n.data['keys'] and
+                all(isinstance(strip(k), EnumVal) for k in n.data['keys'])]
+    if not registry and enum_cls is not None:
+        # dispatch written as an if/elif chain over the enum: every member is compared
+        tested = {}
+        for n in b.nodes('assume'):
+            c2, p2 = unwrap_not(n.data['cond'], n.data['pol'])
+            if isinstance(c2, Cmp) and c2.op in ('==', 'is') and p2:
+                for side in (c2.left, c2.right):
+                    for a in flat(side):
+                        if isinstance(a, EnumVal) and a.cls is enum_cls:
+                            tested.setdefault(a.name, n)
+        ctx.ob('R02.1', 'the sorter dispatch is total over the enum',
+               sorted(tested) == enum_members(ctx, enum_cls),
+               node=list(tested.values())[0] if tested else None,
+               construct='sort dispatch', text=str(sorted(tested)),
+               message='no sorter selected for %s' % sorted(
+                   set(enum_members(ctx, enum_cls)) - set(tested)))
+        for name, n in sorted(tested.items()):
+            ctx.ob('R02.1', 'sort mode %s has a branch' % name, True, node=n)
     for n in b.nodes('arity-error', 'type-error'):
         ctx.ob('R02.1', 'every call on the restore path fits the callee\'s signature', False,
                node=n, message='%s: %s' % (n.kind, n.data.get('what') or
